@@ -221,7 +221,10 @@ func VerifyProof(token string, cfg *ProofConfig, cache *nonceCache) (map[string]
 	if age > skew {
 		return nil, &ProofError{"expired", fmt.Sprintf("age=%ds", age)}
 	}
-	if -age > skew {
+	// age < -skew rather than -age > skew: negating the most negative age
+	// (ts = MaxInt64 seen by a clock one second before the epoch) overflows
+	// back to itself and would pass the comparison.
+	if age < -skew {
 		return nil, &ProofError{"not_yet_valid", fmt.Sprintf("age=%ds", age)}
 	}
 
